@@ -97,6 +97,16 @@ def make_case(cid, rng, schema, root, n_ops, every, name_k=0):
     marks.append({"kind": "create_or_load_existing"})
     full.append({"op": "observe_all", "snapshots": False})
     marks.append({"kind": "observe_after_col"})
+    if name_k % 3 == 2:
+        # a second life in the same place, within the same process: the library is deleted and a new one of the same version
+        # is started there with one track and one crate; nothing of the first may show, and the new content must survive a reopen
+        from .. import gen_snap as GS
+        full += [{"op": "release_all"}, {"op": "wipe_dir", "dir": d},
+                 {"op": "lib_create" if is_v2(schema) else "create", "schema": schema, "dir": d},
+                 {"op": "create_track", "as": "n0", "snap": {"relative_path": GS.hx("second/life.mp3"), "title": GS.hx("second life")}},
+                 {"op": "create_root_crate", "name": GS.hx("Second"), "as": "nc0"}, {"op": "add_track", "c": "nc0", "t": "n0"},
+                 {"op": "observe_all", "snapshots": True}, {"op": "reopen", "dir": d, "verify": True}]
+        marks += [None, None, None, None, None, None, {"kind": "second_life"}, {"kind": "reopen"}]
     return {"id": cid, "schema": schema, "dir": d, "ops": full, "_marks": marks}
 
 
@@ -178,6 +188,18 @@ def judge_case(ctx, res):
                 ctx.violation(f"create_or_load-created-over-existing {fam}", f"{schema}: create_or_load reported created=true for an existing library", wit)
             if r["loaded_schema"] != schema or r["version_name"] != schema:
                 ctx.violation(f"create_or_load-schema-wrong {fam}", f"{schema}: create_or_load on an existing library reports {r['loaded_schema']!r}/{r['version_name']!r}", wit)
+        elif kind == "second_life":
+            ctx.bump("second_life_cases")
+            if "ret" in ev:
+                o = ev["ret"]
+                tr, cr = o.get("tracks") or {}, o.get("crates") or {}
+                titles = sorted((t.get("get", {}).get("title") or "") for t in tr.values())
+                from .. import gen_snap as GS
+                if len(tr) != 1 or len(cr) != 1 or titles != [GS.hx("second life")]:
+                    ctx.violation(f"second-life-shows-first {fam}", f"{schema}: a library created in the place of a deleted one shows {len(tr)} tracks "
+                                  f"and {len(cr)} crates (titles {titles[:3]}) instead of its own one track and one crate", wit)
+            else:
+                ctx.violation(f"second-life-unobservable {fam}", f"{schema}: observing a library created in the place of a deleted one throws", wit)
         elif kind == "observe_after_col":
             if "ret" in ev and last_before is not None:
                 a, b = last_before["db"], ev["ret"]["db"]
@@ -327,9 +349,17 @@ def replay(ctx, doc):
             judge_decision(ctx, runner.run_one(case, cfg="plain"))
         else:
             marks = []
+            wiped = False
             for o in new_ops:
                 k = o["op"]
-                if k == "reopen":
+                if k == "wipe_dir":
+                    wiped = True
+                    marks.append(None)
+                elif wiped and k == "observe_all":
+                    marks.append({"kind": "second_life"})
+                elif wiped and k != "reopen":
+                    marks.append(None)
+                elif k == "reopen":
                     marks.append({"kind": "reopen"})
                 elif k == "exists":
                     marks.append({"kind": "exists"})
